@@ -52,6 +52,21 @@ impl HttpRequest {
         Ok(ret)
     }
     pub async fn write_to(&self, socket: Writer<'_>) -> Result<(), Error> {
+        // the request line is split at blanks and lines end at CR/LF: a resource (the CONNECT target,
+        // which comes from the client) or header value containing them would be read by the peer
+        // as a different target or as additional header lines.
+        let bad_token = |s: &str| s.is_empty() || s.chars().any(|c| c.is_whitespace() || c.is_control());
+        if bad_token(&self.method) || bad_token(&self.resource) || bad_token(&self.version) {
+            return Err(err_msg(format!(
+                "illegal character in request line: {:?} {:?}",
+                self.method, self.resource
+            )));
+        }
+        for (k, v) in &self.headers {
+            if bad_token(k) || v.chars().any(|c| c.is_control() && c != '\t') {
+                return Err(err_msg(format!("illegal character in header: {:?}: {:?}", k, v)));
+            }
+        }
         let buf = format!("{} {} {}\r\n", self.method, self.resource, self.version);
         socket.write(buf.as_bytes()).await.context("write error")?;
         for (k, v) in &self.headers {
